@@ -279,6 +279,24 @@ type world struct {
 	proto          api.XProtocol
 	concurrent     bool
 	pre            []*mconn // concurrent phase: records made at creation (same order as created)
+	oneways        int      // one-way requests sent
+	gauge0         gaugeSet // the gauges when the world was made (a fresh cluster and host: all zero)
+}
+
+// gaugeSet: the upstream request_active / connection_active gauges of the host and of the cluster.
+type gaugeSet struct{ reqHost, reqCluster, connHost, connCluster int64 }
+
+func (w *world) gaugesRaw() gaugeSet {
+	hs, cs := w.host.HostStats(), w.host.ClusterInfo().Stats()
+	return gaugeSet{hs.UpstreamRequestActive.Count(), cs.UpstreamRequestActive.Count(),
+		hs.UpstreamConnectionActive.Count(), cs.UpstreamConnectionActive.Count()}
+}
+
+// gauges: movement since the world was made.
+func (w *world) gauges() gaugeSet {
+	g := w.gaugesRaw()
+	return gaugeSet{g.reqHost - w.gauge0.reqHost, g.reqCluster - w.gauge0.reqCluster,
+		g.connHost - w.gauge0.connHost, g.connCluster - w.gauge0.connCluster}
 }
 
 var clusterSeq int64
@@ -300,6 +318,7 @@ func newWorld(kind string, maxConn, maxReq uint32) *world {
 	info := cluster.NewCluster(cc).Snapshot().ClusterInfo()
 	real := cluster.NewSimpleHost(cc.Hosts[0], info)
 	w.host = &recHost{Host: real, w: w}
+	w.gauge0 = w.gaugesRaw()
 	ctx := variable.NewVariableContext(context.Background())
 	switch kind {
 	case "h1":
